@@ -1,4 +1,5 @@
 import GB.C06.Proofs
+import GB.C06.ProofsSvc
 import GB.C06.Compose
 /-
   C06 — property theorems.  `PatState` / `SvcState` are the executable models of
@@ -18,9 +19,11 @@ theorem C06_pattern_invariant (valid : Bytes → Bool) (h : List Op) :
     PInv valid (PatState.init.run valid h) (latestOf h) :=
   PInv_run (PInv_init valid) h
 
-/-- Invariant bundle, service side. -/
-theorem C06_service_invariant (h : List Op) : SInv (SvcState.init.run h) (latestOf h) :=
-  SInv_run SInv_init h
+/-- Invariant bundle, service side (after fix D31): the entries of every service — owner first, then the waiting
+    claims — are the live listers of that service in claim order (`claimsOf h`), each pointing into its own latest
+    description; the owned-service lists agree with the routing map. -/
+theorem C06_service_invariant (h : List Op) : RInv (SvcState.init.run h) (latestOf h) (claimsOf h) :=
+  RInv_history h
 
 /-- **Pattern lookups = lookups on the table built from the latest descriptions** (for requests not
     contested between targets), including the target version and the index path of the returned
@@ -84,26 +87,82 @@ theorem C06_pattern_latest (valid : Bytes → Bool) (pool : Name → Bool) (eval
     · cases hf
   · cases hf
 
-/-- **Service lookups** for a service that was never listed by two live targets at once: the one
-    live target listing it owns it, and the route points into that target's latest description
-    (version and index of the service) — this is what fails before fix D6. -/
-theorem C06_service (h : List Op) (svc : SvcName) (hs : NeverShared svc Latest.init h)
-    (n : Name) (hl : Lists (latestOf h) n svc) :
+/-- **Service lookups, for ALL histories — contested services included** (fix D31).  The claimants of a service
+    (`claimsOf h svc`) are exactly the still-watched targets whose latest description lists it, without
+    repetition, ordered by the start of their current uninterrupted claim (`C06_claim_order`).  The routing map
+    holds the FIRST of them, pointing into ITS latest description (version and index of the service); the router's
+    waiting list holds the others, in claim order, each with its latest description.  No `NeverShared` hypothesis. -/
+theorem C06_service_owner (h : List Op) (svc : SvcName) :
+    ((SvcState.init.run h).routes svc = match claimsOf h svc with
+      | [] => none
+      | n :: _ => specSvcRoute (latestOf h) n svc) ∧
+    (SvcState.init.run h).routes svc = specOwner (latestOf h) (claimsOf h) svc ∧
+    (SvcState.init.run h).waiting svc = (specEntries (latestOf h) (claimsOf h) svc).tail ∧
+    (∀ n, n ∈ claimsOf h svc ↔ Lists (latestOf h) n svc) ∧ (claimsOf h svc).Nodup := by
+  have inv := C06_service_invariant h
+  exact ⟨inv.owner_head svc, (inv.routes_eq svc).1, (inv.routes_eq svc).2, inv.claims svc, inv.cNodup svc⟩
+
+/-- **Claim order** (the specification's queue, declaratively): a delivered description that lists the service
+    keeps a claimant's place and puts a NEW claimant at the back; one that does not list it removes the target (so
+    a target that drops the service and lists it again later goes to the back); Close removes the target; ignored
+    calls and Watch change nothing. -/
+theorem C06_claim_order (h : List Op) (svc : SvcName) (n : Name) (d : Desc) :
+    claimsOf [] svc = [] ∧
+    claimsOf (h ++ [.watch n]) svc = claimsOf h svc ∧
+    claimsOf (h ++ [.close n]) svc = (claimsOf h svc).filter (fun m => decide (m ≠ n)) ∧
+    ((latestOf h).watched n = true → d.name = n → listed d.services svc →
+      claimsOf (h ++ [.update n d]) svc = if n ∈ claimsOf h svc then claimsOf h svc else claimsOf h svc ++ [n]) ∧
+    ((latestOf h).watched n = true → d.name = n → ¬ listed d.services svc →
+      claimsOf (h ++ [.update n d]) svc = (claimsOf h svc).filter (fun m => decide (m ≠ n))) ∧
+    (¬ ((latestOf h).watched n = true ∧ d.name = n) → claimsOf (h ++ [.update n d]) svc = claimsOf h svc) := by
+  refine ⟨rfl, ?_, ?_, ?_, ?_, ?_⟩
+  · rw [claimsOf_snoc]; rfl
+  · rw [claimsOf_snoc]; rfl
+  · intro hw hd hl
+    rw [claimsOf_snoc]
+    simp [Claims.step, hw, hd, (listedB_iff _ _).mpr hl]
+  · intro hw hd hl
+    rw [claimsOf_snoc]
+    simp [Claims.step, hw, hd, (listedB_false _ _).mpr hl]
+  · intro hv
+    rw [claimsOf_snoc]
+    simp [Claims.step, hv]
+
+/-- Corollary: a service listed by exactly ONE live target now — whatever happened earlier, contested or not —
+    is routed to that target with its latest description. -/
+theorem C06_service_unique_lister (h : List Op) (svc : SvcName) (n : Name)
+    (hl : Lists (latestOf h) n svc) (hu : ∀ m, Lists (latestOf h) m svc → m = n) :
     (SvcState.init.run h).routes svc = specSvcRoute (latestOf h) n svc := by
   have inv := C06_service_invariant h
-  have own := ListersOwn_run svc h SvcState.init Latest.init SInv_init
-    (by intro n ⟨d, hd, _⟩; simp [Latest.desc, Latest.init] at hd) hs
-  obtain ⟨r, hr, ht⟩ := own n hl
-  rw [hr, ← ht]
-  exact (inv.latest _ _ hr).symm
+  rw [inv.owner_head svc, inv.claims_unique svc n hl hu]
+
+/-- Corollary (the statement of the earlier rounds): a service never listed by two live targets at once is routed
+    to its one live lister, pointing into that target's latest description. -/
+theorem C06_service (h : List Op) (svc : SvcName) (hs : NeverShared svc Latest.init h)
+    (n : Name) (hl : Lists (latestOf h) n svc) :
+    (SvcState.init.run h).routes svc = specSvcRoute (latestOf h) n svc :=
+  C06_service_unique_lister h svc n hl
+    (fun m hm => NeverShared_last svc h Latest.init hs m n hm hl)
 
 /-- A service no live target lists (dropped by an update, or its owner closed) is not routed — always. -/
 theorem C06_service_gone (h : List Op) (svc : SvcName) (hn : ∀ n, ¬ Lists (latestOf h) n svc) :
     (SvcState.init.run h).routes svc = none := by
   have inv := C06_service_invariant h
-  cases hr : (SvcState.init.run h).routes svc with
-  | none => rfl
-  | some r => exact absurd (specSvcRoute_lists (inv.latest _ _ hr)) (hn _)
+  rw [inv.owner_head svc, inv.claims_empty svc hn]
+
+/-- … and conversely a service SOME live target lists is always routed (this is what failed before fix D31 after
+    the owner of a contested service released it). -/
+theorem C06_service_routed (h : List Op) (svc : SvcName) (n : Name) (hl : Lists (latestOf h) n svc) :
+    ∃ r, (SvcState.init.run h).routes svc = some r ∧ Lists (latestOf h) r.target svc := by
+  have inv := C06_service_invariant h
+  have hmem := (inv.claims svc n).mpr hl
+  rw [inv.owner_head svc]
+  cases hc : claimsOf h svc with
+  | nil => rw [hc] at hmem; cases hmem
+  | cons a as =>
+    have ha : a ∈ claimsOf h svc := by rw [hc]; simp
+    obtain ⟨r, hr, hrt⟩ := inv.entry_of_claim svc a ha
+    exact ⟨r, hr, by rw [hrt]; exact (inv.claims svc a).mp ha⟩
 
 /-- Whoever owns a service — contested or not — is watched, lists it in its latest description, and the
     stored pointers are into that latest description. -/
@@ -112,9 +171,16 @@ theorem C06_service_latest (h : List Op) (svc : SvcName) (r : SvcRoute)
     specSvcRoute (latestOf h) r.target svc = some r ∧ Lists (latestOf h) r.target svc ∧
       (latestOf h).watched r.target = true := by
   have inv := C06_service_invariant h
-  have h1 := inv.latest _ _ hr
-  obtain ⟨d, hd, _⟩ := specSvcRoute_some h1
-  exact ⟨h1, specSvcRoute_lists h1, desc_some_watched _ _ d hd⟩
+  rw [inv.owner_head svc] at hr
+  cases hc : claimsOf h svc with
+  | nil => rw [hc] at hr; cases hr
+  | cons a as =>
+    rw [hc] at hr
+    simp only at hr
+    obtain ⟨d, hd, j, hj, hre⟩ := specSvcRoute_some hr
+    have hrt : r.target = a := by rw [hre]
+    rw [hrt]
+    exact ⟨hr, specSvcRoute_lists hr, desc_some_watched _ _ d hd⟩
 
 /-- **Isolation, pattern side**: an operation on target `n` leaves, in the list of every HTTP method, the
     elements of all other targets untouched — content, version and relative order. -/
@@ -132,7 +198,7 @@ theorem C06_isolation_pattern (valid : Bytes → Bool) (h : List Op) (op : Op) (
 theorem C06_isolation_service (h : List Op) (op : Op) (svc : SvcName) (r : SvcRoute)
     (hr : (SvcState.init.run h).routes svc = some r) (hne : r.target ≠ op.target) :
     ((SvcState.init.run h).step op).1.routes svc = some r := by
-  have inv := (C06_service_invariant h).base
+  have inv := (C06_service_invariant h).winv
   cases op with
   | watch n => simp only [SvcState.step]; split <;> exact hr
   | update n d =>
@@ -143,19 +209,17 @@ theorem C06_isolation_service (h : List Op) (op : Op) (svc : SvcName) (r : SvcRo
       · exact hr
       · rename_i hd
         have hd' : d.name = n := by simpa using hd
-        have hf : Foreign (SvcState.init.run h).routes d.name svc := ⟨r, hr, by rw [hd']; exact hne⟩
-        rw [update_foreign inv d svc hf]; exact hr
+        have hne' : r.target ≠ d.name := by rw [hd']; exact hne
+        obtain ⟨_, _, _, _, k5, k6⟩ := update_key inv d svc
+        by_cases hl : listed d.services svc
+        · obtain ⟨_, _, h1, _⟩ := k5 r hr hne' hl; exact h1
+        · exact (k6 r hr hne' hl).1
   | close n =>
     simp only [SvcState.step]
     split
     · exact hr
-    · show ((SvcState.init.run h).removeTarget n).routes svc = some r
-      rw [removeTarget_routes]
-      have : svc ∉ sliceOf ((SvcState.init.run h).svcRoutes n) := by
-        intro hx
-        obtain ⟨r', hr', ht'⟩ := inv.claims _ _ hx
-        rw [hr] at hr'; cases hr'; exact hne ht'
-      simp [this, hr]
+    · obtain ⟨_, _, k3⟩ := remove_key inv n svc
+      exact (k3 r hr hne).1
 
 /-- **Watch discipline**: on both routers `Watch(n)` succeeds iff `n` is not currently watched … -/
 theorem C06_watch (valid : Bytes → Bool) (h : List Op) (n : Name) :
